@@ -21,5 +21,5 @@ CONSTANTS
   Conf0 = 3
   H0 = 100
 INVARIANTS TypeOK FFMonotone FFBelowEnd FFAboveFloor FFCeilAtWidth FFCeilByDeadline FFShape
-  PubFeeLeBudget PubRateLeMax PubRateLeCeil PubNoDust PubSomeOutput PubMonotone PubAboveFloor PubFeeExact PubCeilByDeadline
+  PubFeeLeBudget PubRateLeMax PubRateLeCeil PubNoDust PubSomeOutput PubMonotone PubAboveFloor PubFeeExact PubCeilByDeadline RegroupStart RegroupNoDecrease PubRegroupNoDecrease
 CHECK_DEADLOCK FALSE
